@@ -59,3 +59,59 @@ func TestVerifReplayC14SubscribeWithDiscoveryAfterShutdown(t *testing.T) {
 		t.Fatalf("VIOLATION-CONFIRMED: Topic.Subscribe blocks forever after shutdown when discovery is configured (plain send on the discovery queue, nobody receives)")
 	}
 }
+
+// (*Subscription).Next#cancellable:(*Subscription).Next:select#1
+func TestVerifReplayC14SubscriptionNextAfterShutdown(t *testing.T) {
+	ctx, cancel := context.WithCancel(context.Background())
+	hosts := getDefaultHosts(t, 1)
+	ps := getGossipsub(ctx, hosts[0])
+	sub, err := ps.Subscribe("t")
+	if err != nil {
+		t.Fatal(err)
+	}
+	done := make(chan error, 1)
+	go func() {
+		_, err := sub.Next(context.Background())
+		done <- err
+	}()
+	time.Sleep(100 * time.Millisecond)
+	cancel()
+	select {
+	case err := <-done:
+		if err == nil {
+			t.Fatalf("Next returned a message after shutdown")
+		}
+	case <-time.After(3 * time.Second):
+		t.Fatalf("VIOLATION-CONFIRMED: Subscription.Next(context.Background()) is still blocked 3s after the pubsub context was cancelled (only the caller's context ends the wait)")
+	}
+}
+
+// (*TopicEventHandler).NextPeerEvent#cancellable:(*TopicEventHandler).NextPeerEvent:select#1
+func TestVerifReplayC14NextPeerEventAfterShutdown(t *testing.T) {
+	ctx, cancel := context.WithCancel(context.Background())
+	hosts := getDefaultHosts(t, 1)
+	ps := getGossipsub(ctx, hosts[0])
+	tp, err := ps.Join("t")
+	if err != nil {
+		t.Fatal(err)
+	}
+	h, err := tp.EventHandler()
+	if err != nil {
+		t.Fatal(err)
+	}
+	done := make(chan error, 1)
+	go func() {
+		_, err := h.NextPeerEvent(context.Background())
+		done <- err
+	}()
+	time.Sleep(100 * time.Millisecond)
+	cancel()
+	select {
+	case err := <-done:
+		if err == nil {
+			t.Fatalf("NextPeerEvent returned an event after shutdown")
+		}
+	case <-time.After(3 * time.Second):
+		t.Fatalf("VIOLATION-CONFIRMED: TopicEventHandler.NextPeerEvent(context.Background()) is still blocked 3s after the pubsub context was cancelled")
+	}
+}
